@@ -18,6 +18,13 @@ def main():
     if hasattr(mod, 'init_worker'):
         mod.init_worker()
     vs = mod.replay(v['case'])
+    # recorded known findings are not violations here either (same matchers as the checks use)
+    from .runner import load_findings, match_finding
+    findings = load_findings(v['property'])
+    known = [x for x in vs if match_finding(x, findings) is not None]
+    for f in sorted({match_finding(x, findings)['id'] for x in known}):
+        print(f"KNOWN-FINDING: property={v['property']} (id={f}) reproduced by this replay")
+    vs = [x for x in vs if match_finding(x, findings) is None]
     same = [x for x in vs if x['kind'] == v['kind']] or vs
     if same:
         print(f"VIOLATION property={v['property']} replay={path}")
